@@ -37,6 +37,8 @@ def elem(md, name, resname):
 def build(md, rng):
     top = md.Topology()
     with_h = rng.random() < 0.75
+    late_h = with_h and rng.random() < 0.3     # the atoms of a residue are then not one contiguous block of indices
+    deferred = []
     centers = []
     pos = np.zeros(3)
     for ci in range(rng.choice([1, 2, 3])):
@@ -51,12 +53,19 @@ def build(md, rng):
                     continue
                 if rng.random() < 0.07 and name in PROTEIN:
                     continue
+                c_ = pos + np.array([rng.gauss(0, 1) for _ in range(3)]) * 0.12
+                if late_h and an[0] == "H" and n_added > 0:
+                    deferred.append((an, name, r, c_))      # hydrogens added after all heavy atoms, as "add hydrogens" tools do
+                    continue
                 top.add_atom(an, elem(md, an, name), r)
-                centers.append(pos + np.array([rng.gauss(0, 1) for _ in range(3)]) * 0.12)
+                centers.append(c_)
                 n_added += 1
             if n_added == 0:
                 top.add_atom(TEMPL[name][0], elem(md, TEMPL[name][0], name), r)
                 centers.append(pos.copy())
+    for an, name, r, c_ in deferred:
+        top.add_atom(an, elem(md, an, name), r)
+        centers.append(c_)
     xyz = np.round(np.array(centers) * 1024) / 1024
     # bonds: consecutive atoms inside a residue (enough for DRID exclusions)
     atoms = list(top.atoms)
